@@ -175,22 +175,36 @@ def vlib_render_matches(ctx, case, src):
 
 
 def replay_one(ctx, path):
-    """Re-run exactly one recorded case through TLC and the implementation."""
+    """Re-run exactly one recorded case through TLC and the implementation.
+    Cases of the replay families (a program and a text) are re-run alone; for
+    the other families (file systems, sources, variants, configurations,
+    traces) the property's check is re-run and the recorded signature looked
+    for."""
     with open(path) as f:
         v = json.load(f)
-    if "case" not in v or v.get("case") is None:
-        raise Undecided("replay file has no case")
-    case = dict(v["case"])
-    case.pop("sigma", None)
-    case["texts"] = [v["text"]]
-    case["id"] = 1
-    fields = FIELDS.get(ctx.prop, ["spans", "vars", "num", "loc", "val", "repl", "wf", "panic"])
-    rep = ctx.replay("replay", [case], fields, mode=v.get("mode", "string"))
-    for x in rep["violations"]:
+    case = v.get("case") or {}
+    if isinstance(case, dict) and "cmds" in case and v.get("text") is not None:
+        case = dict(case)
+        case.pop("sigma", None)
+        case["texts"] = [v["text"]]
+        case["id"] = 1
+        fields = FIELDS.get(ctx.prop, ["spans", "vars", "num", "loc", "val", "repl", "wf", "panic"])
+        rep = ctx.replay("replay", [case], fields, mode=v.get("mode", "string"))
+        for x in rep["violations"]:
+            print("VIOLATION property=%s replay=%s" % (ctx.prop, path))
+            log("  " + x["detail"])
+            return 1
+        print("replay: no violation on this tree")
+        return 0
+    CHECKS[ctx.prop](ctx)
+    same = [x for x in ctx.violations if x.get("sig") == v.get("sig")]
+    kfs = vlib.load_known_findings()
+    same = [x for x in same if vlib.kf_match(kfs, ctx.prop, x) is None]
+    if same:
         print("VIOLATION property=%s replay=%s" % (ctx.prop, path))
-        log("  " + x["detail"])
+        log("  " + same[0].get("detail", ""))
         return 1
-    print("replay: no violation on this tree")
+    print("replay: no violation with signature %r on this tree" % v.get("sig"))
     return 0
 
 
